@@ -340,6 +340,12 @@ def check_auth(request, response, realm, users, encrypt=None):
             # fetch the user password
             password = users.get(ah['username'], None)
 
+        if password is None:
+            # unknown user (the digest computation would format the missing
+            # password as the text 'None', which an attacker can do as well)
+            request.login = False
+            return False
+
         # validate the Authorization by re-computing it here
         # and compare it with what the user-agent provided
         if _httpauth.checkResponse(ah, password, method=request.method, encrypt=encrypt, realm=realm):
